@@ -215,6 +215,9 @@ def parseArgs (w n : Nat) (ts : List String) : Option (List (Arg w n)) :=
 def handle (E : Env) (line : String) : Env × String :=
   match line.trimAscii.toString.splitOn " " with
   | ["env", d, o, nn, s] => (mkEnv (d == "1") (o == "1") (nn == "1") (s == "1"), "ok")
+  -- compile-time target features of the modelled build (`-C target-feature=…`): avx2 fma avx512f avx512bw neon
+  | ["tf", a, f, f5, bw, ne] =>
+    ({ E with tf_avx2 := a == "1", tf_fma := f == "1", tf_avx512f := f5 == "1", tf_avx512bw := bw == "1", tf_neon := ne == "1" }, "ok")
   | "reg" :: reg :: ty :: method :: rest =>
     match withReg E reg ty (fun {w n} R _ =>
       match parseArgs w n rest with
